@@ -384,3 +384,28 @@ func pageCursorSequences() {
 		}()
 	}
 }
+
+// pageClearColours: the colours clearScreen is given become the page's own, black included
+// (0 is a colour, not "no colour").
+func pageClearColours() {
+	if !realPage || *hc.Shard != 0 {
+		return
+	}
+	w.R.Evaluations++
+	w.AddDistinct(1)
+	s := newScreen(4, 2)
+	defer s.Fini()
+	term := js.Global().Get("__term")
+	s.SetStyle(tcell.StyleDefault.Foreground(tcell.ColorWhite).Background(tcell.ColorBlue))
+	s.Sync()
+	s.SetStyle(tcell.StyleDefault.Foreground(tcell.ColorRed).Background(tcell.ColorBlack))
+	s.Sync()
+	bg := term.Get("style").Get("backgroundColor")
+	if bg.Type() != js.TypeString || bg.String() != "#000000" {
+		got := "unset"
+		if bg.Type() == js.TypeString {
+			got = bg.String()
+		}
+		w.Violation("wasm-page-clear-colour", fmt.Sprintf("SetStyle(white on blue); Sync; SetStyle(red on black); Sync: the page's background is %s, want #000000 (the script takes the colour value 0 for \"no colour\")", got), nil)
+	}
+}
